@@ -159,6 +159,8 @@ def build(program, rec, opts=None, name_prefix=""):
                         out[var] = kwargs.get(s[1], "")
                     elif s[0] == "id":
                         out[var] = self.id
+                    elif s[0] == "tail":
+                        out[var] = str(kwargs.get(s[1], ""))[1:]
                     elif s[0] == "inject":
                         key, field, dflt = s[1], s[2], s[3]
                         rec.visit("inject:%s" % spec["name"])
@@ -492,6 +494,8 @@ class Interp:
                 data[var] = kwargs.get(s[1], "")
             elif s[0] == "id":
                 data[var] = ("ID", inst.n)
+            elif s[0] == "tail":
+                data[var] = str(kwargs.get(s[1], ""))[1:]
             elif s[0] == "inject":
                 key, field, dflt = s[1], s[2], s[3]
                 if key in prov:
